@@ -187,27 +187,25 @@ impl Prop for C09 {
         };
         let replay = case.schedule.clone().map(|s| (s, true));
         let mut case = case;
-        let mut par = life::run_par(env, &input, &case.cfg, &case.ops, &case.ambient, &case.sim, replay, tag);
         // a task preempted while holding a std lock blocks the single-threaded simulation (an artefact of
-        // cooperative scheduling, not of the code): retry with coarser preemption
-        for step in 0..2 {
-            let stuck = par.abort.as_deref().map(|m| m.starts_with("STUCK-IN-SIM")).unwrap_or(false);
-            if !stuck || case.schedule.is_some() {
-                break;
+        // cooperative scheduling, not of the code): coarser preemption, in a fresh process when in a worker
+        let par = match life::run_par_robust(env, &input, &case.cfg, &case.ops, &case.ambient, &case.sim, replay, tag) {
+            Ok((par, used, retries)) => {
+                if retries > 0 {
+                    out.hit(if used.log_thin == 0 && case.sim.log_thin != 0 { "stuck_under_log_preemption_retried_task_granular" } else { "stuck_under_edge_preemption_retried_without" });
+                }
+                case.sim = used;
+                par
             }
-            out.hit(if step == 0 { "stuck_under_edge_preemption_retried_without" } else { "stuck_under_log_preemption_retried_task_granular" });
-            if step == 0 && case.sim.edge_thin != 0 {
-                case.sim.edge_thin = 0;
-            } else {
-                case.sim.edge_thin = 0;
-                case.sim.log_thin = 0;
+            Err(life::StuckErr::Respawn(l)) => {
+                out.respawn_at_level = Some(l);
+                return out;
             }
-            par = life::run_par(env, &input, &case.cfg, &case.ops, &case.ambient, &case.sim, None, tag);
-        }
-        if par.abort.as_deref().map(|m| m.starts_with("STUCK-IN-SIM")).unwrap_or(false) {
-            out.harness_error = Some("the simulated run made no progress even at task granularity (STUCK-IN-SIM)".into());
-            return out;
-        }
+            Err(life::StuckErr::Final(e)) => {
+                out.harness_error = Some(e);
+                return out;
+            }
+        };
         let sim = par.sim.as_ref().unwrap();
         let mut failing_case = case.clone();
         failing_case.schedule = Some(sim.schedule.clone());
